@@ -43,7 +43,9 @@ def spell(path, how, wd=""):
     if how == 5:
         return {"__p": rel}
     if how == 6:
-        return rel + "/." if False else "./././" + rel
+        return "./././" + rel
+    if how == 7:
+        return {"__pabs": path}  # absolute path handed over as a PathLike object
     raise ValueError(how)
 
 
@@ -93,8 +95,13 @@ def container(draw, paths, wd="", spellings=(0, 1, 2, 3, 4), shapes=tuple(range(
 @st.composite
 def wellformed(draw, max_targets=6, max_files=8, spellings=(0, 1, 2, 3, 4), shapes=tuple(range(N_SHAPES)),
                ticks=5, allow_missing_outputs=True, wds=(None,), min_targets=1, protect=False,
-               options=False, specs="short", dirs=None, nb=None):
-    """Valid workflow: no duplicate producer, no cycle, every source exists."""
+               options=False, specs="short", dirs=None, nb=None, wf_wds=(None,)):
+    """Valid workflow: no duplicate producer, no cycle, every source exists.
+    wf_wds: candidate explicit workflow working directories (project-relative); when one is drawn the
+    workflow is created with Workflow(working_dir=...) and every target made with Workflow.target inherits it."""
+    wf_wd = draw(st.sampled_from(wf_wds))
+    if wf_wd is not None:
+        wds = (wf_wd,)
     nt = draw(st.integers(min_targets, max_targets))
     nf = draw(st.integers(2, max_files))
     files = file_pool(nf, dirs, nb)
@@ -120,6 +127,8 @@ def wellformed(draw, max_targets=6, max_files=8, spellings=(0, 1, 2, 3, 4), shap
             "spec": f"echo run {names[i]}\n" if specs == "short" else draw(specs),
             "wd": wd,
         }
+        if wf_wd is not None:
+            t["via"] = "target"
         if protect:
             cand = outs + (avail[:1] if avail else [])
             pr = draw(st.lists(st.sampled_from(cand), max_size=2, unique=True)) if cand else []
@@ -135,7 +144,10 @@ def wellformed(draw, max_targets=6, max_files=8, spellings=(0, 1, 2, 3, 4), shap
         else:
             fstate[f] = draw(st.one_of(st.none(), st.integers(1, ticks))) if allow_missing_outputs \
                 else draw(st.integers(1, ticks))
-    return {"targets": targets, "files": fstate}
+    desc = {"targets": targets, "files": fstate}
+    if wf_wd is not None:
+        desc["workflow_wd"] = wf_wd
+    return desc
 
 
 @st.composite
